@@ -53,7 +53,7 @@ def run(ctx):
             r = impl.run_ev(p)
             results.append(r)
             for sig, text in r["viol"]:
-                ctx.fail(sig, "%s; program %s" % (text, json.dumps(p)), replay=dict(kind="ev", program=p, trace=r["full"]))
+                ctx.fail(sig, "%s; program %s" % (text, short(p)), replay=dict(kind="ev", program=p, trace=r["full"]))
             ctx.case(["ev", p], nontrivial=r["nrun"] > 0)
             ctx.hist("ev_program_length", len(p))
             ctx.hist("ev_callables_run", min(r["nrun"], 10))
@@ -73,7 +73,7 @@ def run(ctx):
                 r = impl.run_pr(p)
                 presults.append(r)
                 for sig, text in r["viol"]:
-                    ctx.fail(sig, "%s; program %s" % (text, json.dumps(p)), replay=dict(kind="pr", program=p, trace=r["full"]))
+                    ctx.fail(sig, "%s; program %s" % (text, short(p)), replay=dict(kind="pr", program=p, trace=r["full"]))
                 ctx.case(["pr", p], nontrivial=r["ndeliv"] + r["nobs"] > 0)
                 ctx.hist("pr_program_length", len(p))
                 ctx.hist("pr_deliveries", min(r["ndeliv"], 10))
@@ -87,6 +87,8 @@ def run(ctx):
         impl.observer_list_oracle(ctx)
         impl.flush_observer_oracle(ctx)
 
+    volume(ctx, impl, model_ok)
+
     if not ok and len(ctx.failures) == before:
         ctx.fail("proof-broken", "theorem closure props/C17.vo no longer builds against the regenerated gen/EventualGen.v:\n"
                  + log[-2500:], replay=dict(log=log[-6000:]), has_input=False)
@@ -95,6 +97,18 @@ def run(ctx):
 
 
 # ---------------------------------------------------------------------------------- correspondence
+def short(p):
+    """programs can be thousands of operations long: show the ones that are not plain submissions/sends"""
+    if len(p) <= 40:
+        return json.dumps(p)
+    def plain(o):
+        return (o[0] == "act" and o[1][0] == "enq" and not o[1][1][1] and not o[1][1][2]) or \
+               (o[0] in ("send", "sendonly") and o[3][0] == "ret")
+    odd = [(i, o) for i, o in enumerate(p) if not plain(o)]
+    return "%d operations, all plain eventually()/sends except (index, op): %s%s" % (
+        len(p), json.dumps(odd[:12]), " ..." if len(odd) > 12 else "")
+
+
 def correspond(ctx, kind, progs, results, to_coq, fn, requires):
     nbad = 0
     for k in range(0, len(progs), SHARD):
@@ -242,7 +256,7 @@ def ev_programs(ctx):
     return out
 
 
-PR_LETTERS = "SsOWXEVBCvbTRZz"
+PR_LETTERS = "SsOWXEVBCvbTRZzY"
 
 
 def pr_letter(ch, st):
@@ -271,6 +285,9 @@ def pr_letter(ch, st):
         return ["when", last, w(), "when"]
     if ch == "O":
         return ["sendonly", 0, mid(), ["ret", 0]]
+    if ch == "Y":
+        a = mid()
+        return ["sendonly", 0, a, ["sendret", 0, 500 + a, 9]]          # the method sends again to the same promise
     if ch == "W":
         return ["when", 0, w(), "when"]
     if ch == "X":
@@ -312,7 +329,8 @@ def pr_random(rng):
             prog.append(["turn"])
         elif k < 0.45:
             mid += 1
-            b = rng.choice([["ret", mid + 40], ["ret", mid + 40], ["raise", mid + 60], ["retp", rng.randrange(n + 1)]])
+            b = rng.choice([["ret", mid + 40], ["ret", mid + 40], ["raise", mid + 60], ["retp", rng.randrange(n + 1)],
+                            ["sendret", rng.randrange(n), 1000 + mid, mid + 40]])
             if rng.random() < 0.75:
                 prog.append(["send", p, mid, b])
                 n += 1
@@ -393,3 +411,169 @@ def pr_programs(ctx):
     for _ in range(ctx.n(1500, 60000)):
         out.append(pr_random(ctx.rng))
     return out
+
+
+# ---------------------------------------------------------------------------------- volume: big batches, exact order
+VOL_SIZES = [0, 1, 2, 255, 256, 257, 999, 1000, 1001, 1023, 1024, 1025, 2048, 3000]
+ZH_MOD = 2305843009213693951
+
+
+def zhash(xs):
+    h = 0
+    for x in xs:
+        h = (h * 1000003 + x + 7) & ZH_MOD
+    return h
+
+
+def vol_specs(ctx):
+    """(n, [(position, kind)], turns): n callables / messages submitted in one go; the ones at the listed positions
+    (1-based) enqueue / send more work while they run (kind 0), and also raise an Exception (1) / a BaseException (2)"""
+    specs = []
+    sizes = VOL_SIZES + ([ctx.rng.randrange(3, 3000) for _ in range(6)] if ctx.tier == "thorough" else
+                         [ctx.rng.randrange(1002, 3000)])
+    for n in sizes:
+        bounds = [x for b in (256, 1000, 1024, 2048) for x in (b - 1, b, b + 1) if 1 <= x <= n]
+        allpos = sorted(set(([1, (n + 1) // 2, n] if n else []) + bounds))
+        sets = [allpos]
+        if n >= 1:
+            sets.append([1])
+        if bounds:
+            sets.append(bounds[-3:])
+        if ctx.tier == "thorough":
+            sets += [[]] + ([[n], [(n + 1) // 2], [1, n]] if n else [])
+            for b in (256, 1000, 1024, 2048):
+                near = [x for x in (b - 1, b, b + 1) if 1 <= x <= n]
+                if near:
+                    sets += [near, [1] + near]
+        seen = []
+        for k, st in enumerate(sets):
+            st = sorted(set(st))
+            if st in seen:
+                continue
+            seen.append(st)
+            specs.append((n, [(pos, (k + j) % 3) for j, pos in enumerate(st)], 3))
+    return specs
+
+
+def vol_ev_prog(spec):
+    n, sp, turns = spec
+    d = dict(sp)
+    prog = []
+    for i in range(1, n + 1):
+        if i in d:
+            prog.append(["act", ["enq", [i, [["enq", [n + i, [], 0]]], [0, 1, 2][d[i]]]]])
+        else:
+            prog.append(["act", ["enq", [i, [], 0]]])
+    return prog + [["turn"]] * turns
+
+
+def vol_pr_prog(spec, before):
+    """n messages to promise 0: the first `before` while it is unresolved, the rest after; every 97th is a send()"""
+    n, sp, turns = spec
+    d = dict(sp)
+    prog = [["new"]]
+    for i in range(1, n + 1):
+        if i == before + 1:
+            prog.append(["resolve", 0, ["val", 5]])
+        beh = ["sendret", 0, n + i, 7] if i in d else ["ret", 3]
+        prog.append(["send" if i % 97 == 0 else "sendonly", 0, i, beh])
+    if before >= n:
+        prog.append(["resolve", 0, ["val", 5]])
+    return prog + [["turn"]] * turns
+
+
+VOL_COQ = """
+Definition zhash (l : list Z) : Z := fold_left (fun h x => Z.land (h * 1000003 + x + 7) 2305843009213693951)%Z l 0%Z.
+Definition lookup (sp : list (Z * Z)) (i : Z) : option Z :=
+  match find (fun x => Z.eqb (fst x) i) sp with Some x => Some (snd x) | None => None end.
+Definition digest (r : list Z * list Z) : Z * Z * list Z :=
+  (Z.of_nat (List.length (fst r)), zhash (fst r), if Nat.leb (List.length (snd r)) 8 then snd r else [zhash (snd r)]).
+"""
+
+VOL_EV_COQ = VOL_COQ + """
+Definition vol_sc (n : Z) (sp : list (Z * Z)) (i : Z) : script :=
+  match lookup sp i with
+  | Some k => Sc i [AEnq (Sc (n + i) [] RNo)] (if Z.eqb k 0 then RNo else if Z.eqb k 1 then RExc else RBase)
+  | None => Sc i [] RNo
+  end.
+Definition vol_prog (c : Z * list (Z * Z) * nat) : list op :=
+  let '(n, sp, turns) := c in
+  map (fun i => OAct (AEnq (vol_sc n sp (Z.of_nat i)))) (seq 1 (Z.to_nat n)) ++ repeat OTurn turns.
+"""
+
+VOL_PR_COQ = VOL_COQ + """
+Definition vol_msg (n before : Z) (sp : list (Z * Z)) (i : Z) : list pop :=
+  (if Z.eqb i (before + 1) then [PResolve 0 (RVal 5)] else []) ++
+  [let b := match lookup sp i with Some _ => BSendRet 0 (n + i) 7 | None => BRet 3 end in
+   if Z.eqb (i mod 97) 0 then PSend 0 i b else PSendOnly 0 i b].
+Definition vol_prog (c : Z * Z * list (Z * Z) * nat) : list pop :=
+  let '(n, before, sp, turns) := c in
+  [PNew] ++ flat_map (fun i => vol_msg n before sp (Z.of_nat i)) (seq 1 (Z.to_nat n)) ++
+  (if Z.leb n before then [PResolve 0 (RVal 5)] else []) ++ repeat PTurn turns.
+"""
+
+
+def volume(ctx, impl, model_ok):
+    specs = vol_specs(ctx)
+    # ---- eventual queue
+    evr = []
+    with impl.E.quiet():
+        for spec in specs:
+            p = vol_ev_prog(spec)
+            r = impl.run_ev(p)
+            evr.append(r)
+            for sig, text in r["viol"]:
+                ctx.fail(sig, "%s; program %s" % (text, short(p)), replay=dict(kind="ev", program=p))
+            ctx.case(["ev-volume", list(spec)], nontrivial=r["nrun"] > 0)
+            ctx.hist("volume_ev_batch", spec[0])
+    # ---- promises: all before the resolution / all after / split at the middle and around 1000
+    prs, prr = [], []
+    with impl.E.quiet():
+        for spec in specs:
+            n = spec[0]
+            choices = sorted(set([0, n, n // 2]))
+            if ctx.tier != "thorough":
+                choices = [choices[(len(prs) + n) % len(choices)]]
+            for before in choices:
+                p = vol_pr_prog(spec, before)
+                r = impl.run_pr(p)
+                prs.append((spec, before))
+                prr.append(r)
+                for sig, text in r["viol"]:
+                    ctx.fail(sig, "%s; program %s" % (text, short(p)), replay=dict(kind="pr", program=p))
+                ctx.case(["pr-volume", list(spec), before], nontrivial=r["ndeliv"] > 0)
+                ctx.hist("volume_pr_messages", n)
+    ctx.extra["volume_ev_programs"] = len(specs)
+    ctx.extra["volume_pr_programs"] = len(prs)
+    ctx.extra["volume_max_batch"] = max(s[0] for s in specs)
+    if not model_ok:
+        return
+
+    def coq_sp(sp):
+        return coq_list(sp, lambda x: "(%d, %d)%%Z" % x)
+
+    def compare(kind, name, body, requires, cases, results):
+        try:
+            (vals,) = ctx.coq_eval(name, body, requires=requires)
+        except common.CoqEvalError as e:
+            ctx.fail("correspondence-broken", "the %s volume model could not be evaluated: %s" % (kind, str(e)[-1500:]), has_input=False)
+            return
+        for c, r, v in zip(cases, results, vals):
+            ctx.traces += 1
+            st = r["state"] if len(r["state"]) <= 8 else [zhash(r["state"])]
+            mine = (len(r["trace"]), zhash(r["trace"]), st)
+            theirs = (v[0], v[1], list(v[2]))
+            if mine != theirs:
+                ctx.fail("correspondence/%s-volume" % kind, "model and implementation disagree on the volume case %r: (trace length, "
+                         "trace hash, state) model %r, implementation %r" % (c, theirs, mine), replay=dict(kind=kind, case=c), has_input=False)
+    K = 40
+    for k in range(0, len(specs), K):
+        chunk = specs[k:k + K]
+        body = VOL_EV_COQ + "Definition cases := %s.\nEval vm_compute in map (fun c => digest (run_enc (vol_prog c))) cases.\n" % \
+            coq_list(chunk, lambda s: "(%d%%Z, %s, %d%%nat)" % (s[0], coq_sp(s[1]), s[2]))
+        compare("ev", "C17_vol_ev_%d" % (k // K), body, REQ_EV, chunk, evr[k:k + K])
+    for k in range(0, len(prs), K):
+        chunk = prs[k:k + K]
+        body = VOL_PR_COQ + "Definition cases := %s.\nEval vm_compute in map (fun c => digest (prun_enc (vol_prog c))) cases.\n" % \
+            coq_list(chunk, lambda c: "(%d%%Z, %d%%Z, %s, %d%%nat)" % (c[0][0], c[1], coq_sp(c[0][1]), c[0][2]))
+        compare("pr", "C17_vol_pr_%d" % (k // K), body, REQ_PR, chunk, prr[k:k + K])
